@@ -152,6 +152,7 @@ CHECKS = {
         "level_note": "Trusted: scripted hook binary and its log; fake cluster; 'deleted output file' outcomes are not judged (not covered by the statement).",
         "parts": [
             {"part": "exec", "test": "TestExec", "quick": {"checks": 480, "shards": 16, "shrinktime": "60s", "timeout": 900}, "thorough": {"checks": 6000, "shards": 16, "shrinktime": "120s", "timeout": 6000}, "owned_schedule": False},
+            {"part": "samehook", "test": "TestSameHookConcurrent", "quick": {"checks": 96, "shards": 16, "shrinktime": "30s", "timeout": 900}, "thorough": {"checks": 2000, "shards": 16, "timeout": 6000}, "owned_schedule": False, "accept_unreproduced": True},
         ],
     },
     "C14": {
@@ -198,6 +199,7 @@ CHECKS = {
         "level_note": "Trusted: as C01; reference cache model in internal/ksched.",
         "parts": [
             {"part": "sched", "test": "TestSched", "quick": {"checks": 4000, "shards": 8}, "thorough": {"checks": 300000, "shards": 16, "timeout": 3000}},
+            {"part": "updatesnapshots", "test": "TestUpdateSnapshots", "quick": {"checks": 3000, "shards": 8}, "thorough": {"checks": 200000, "shards": 16, "timeout": 3000}},
         ],
     },
     "C09": {
